@@ -56,6 +56,7 @@ import (
 	"github.com/ARM-software/golang-utils/utils/subprocess"
 	commandUtils "github.com/ARM-software/golang-utils/utils/subprocess/command"
 	"github.com/ARM-software/golang-utils/utils/subprocess/supervisor"
+	"github.com/ARM-software/golang-utils/utils/verifrt"
 	deadlock "github.com/sasha-s/go-deadlock"
 
 	ev "verif/engine/evidence"
@@ -75,6 +76,7 @@ func TestMain(m *testing.M) {
 			deadlock.Opts.LogBuf = w
 		}
 	}
+	installHold()
 	ev.Main(m)
 }
 
@@ -169,6 +171,51 @@ type Cell struct {
 	// command that was stopped with Stop() (its group killed) before the cell's run starts; "after-two-restarts" = the same,
 	// the earlier run having been restarted twice before it was stopped
 	Reuse string `json:"reuse,omitempty"`
+	// Sched: "" = the library's goroutines are scheduled by the Go runtime; "monitor-late" = the goroutine that
+	// subprocess/monitoring.go spawns (hooked through the instrumented copy of that file) does not get to run its first
+	// statement until the stop call of the cell has returned (Stop, Restart) or been made (the other stops): a legal
+	// schedule of the Go runtime, which promises no bound on when a new goroutine first runs. These cells run one at a time.
+	Sched string `json:"sched,omitempty"`
+}
+
+// ---- holding the monitoring goroutine back ----------------------------------------------------------
+
+var (
+	holdMu sync.Mutex
+	holdCh chan struct{} // non-nil: a goroutine spawned by subprocess/monitoring.go waits here before its first statement
+	heldN  atomic.Int64
+)
+
+func installHold() {
+	verifrt.GateHook = func(label string) {
+		if !strings.HasPrefix(label, "start ") {
+			return
+		}
+		holdMu.Lock()
+		ch := holdCh
+		holdMu.Unlock()
+		if ch != nil {
+			heldN.Add(1)
+			<-ch
+		}
+	}
+}
+
+// holdMonitors makes every monitoring goroutine spawned from now on wait; the returned function lets them all go.
+func holdMonitors() (release func()) {
+	ch := make(chan struct{})
+	holdMu.Lock()
+	holdCh = ch
+	holdMu.Unlock()
+	var once sync.Once
+	return func() {
+		once.Do(func() {
+			holdMu.Lock()
+			holdCh = nil
+			holdMu.Unlock()
+			close(ch)
+		})
+	}
 }
 
 func (c Cell) String() string {
@@ -178,6 +225,9 @@ func (c Cell) String() string {
 	}
 	if c.Reuse != "" {
 		s += "|reuse=" + c.Reuse
+	}
+	if c.Sched != "" {
+		s += "|sched=" + c.Sched
 	}
 	return s
 }
@@ -237,7 +287,7 @@ func grid(thorough bool) []Cell {
 			}
 			for _, sp := range stopsOf(st) {
 				for _, in := range instantsOf(s, thorough) {
-					cells = append(cells, Cell{s.Name, st, sp, in, "", ""})
+					cells = append(cells, Cell{s.Name, st, sp, in, "", "", ""})
 				}
 			}
 		}
@@ -248,7 +298,7 @@ func grid(thorough bool) []Cell {
 		for _, st := range starts {
 			for _, sp := range stopsOf(st) {
 				ins := instantsOf(s, thorough)
-				cells = append(cells, Cell{s.Name, st, sp, ins[len(ins)-1], "env", ""})
+				cells = append(cells, Cell{s.Name, st, sp, ins[len(ins)-1], "env", "", ""})
 			}
 		}
 	}
@@ -259,8 +309,22 @@ func grid(thorough bool) []Cell {
 			for _, sp := range stopsOf(st) {
 				ins := instantsOf(s, thorough)
 				for _, re := range []string{"re-setup", "second-run", "after-two-restarts"} {
-					cells = append(cells, Cell{s.Name, st, sp, ins[len(ins)-1], "", re})
+					cells = append(cells, Cell{s.Name, st, sp, ins[len(ins)-1], "", re, ""})
 				}
+			}
+		}
+	}
+	// the monitoring goroutine of the run gets to run late (see Cell.Sched)
+	lateShapes, lateStops := []string{"fan:3", "bg-holder"}, []string{"Cancel", "Stop", "Restart"}
+	if thorough {
+		lateShapes, lateStops = []string{"single", "fan:3", "bg-holder"}, stopsOf("Execute")
+	}
+	for _, name := range lateShapes {
+		s, _ := shapeByName(name)
+		for _, st := range []string{"Execute", "Start"} {
+			for _, sp := range lateStops {
+				ins := instantsOf(s, thorough)
+				cells = append(cells, Cell{s.Name, st, sp, ins[len(ins)-1], "", "", "monitor-late"})
 			}
 		}
 	}
@@ -485,6 +549,7 @@ type Result struct {
 	RunReturned   string   `json:"run_returned,omitempty"`  // Execute / supervisor.Run: "<ms> ms: <error>" or "not within bound"
 	StopReturned  string   `json:"stop_returned,omitempty"` // Stop / Restart
 	IsOnAfter     *bool    `json:"ison_at_bound,omitempty"`
+	IsOnAtStop    *bool    `json:"ison_at_stop_request,omitempty"` // sched=monitor-late only
 	AllGoneAfter  string   `json:"tree_gone_after,omitempty"`
 	Gen2Started   *bool    `json:"second_generation_started,omitempty"`
 	KilledAtClean int      `json:"killed_by_cleanup"`
@@ -578,8 +643,14 @@ func runCell(c Cell) (res Result) {
 		return nil
 	}
 
+	release := func() {}
+	if c.Sched == "monitor-late" {
+		release = holdMonitors()
+	}
+
 	// ALWAYS clean up, whatever happens below.
 	defer func() {
+		release()
 		requestCtxEnd()
 		if p := current(0); p != nil {
 			p.Cancel()
@@ -687,7 +758,9 @@ func runCell(c Cell) (res Result) {
 	ok := true
 	switch c.Start {
 	case "Execute", "Start":
-		ok = reach("IsOn() true", func() bool { return subs[0].IsOn() })
+		if c.Sched != "monitor-late" { // in those cells what makes the command a running one is its announcement in the ledger
+			ok = reach("IsOn() true", func() bool { return subs[0].IsOn() })
+		}
 	case "supervisor":
 		ok = reach("post-start hook", func() bool {
 			select {
@@ -736,7 +809,10 @@ func runCell(c Cell) (res Result) {
 		runStarted = false // already consumed
 		return
 	}
-	if c.Start != "supervisor" && !subs[0].IsOn() {
+	if c.Sched == "monitor-late" {
+		on := subs[0].IsOn()
+		res.IsOnAtStop = &on
+	} else if c.Start != "supervisor" && !subs[0].IsOn() {
 		// Start-ed command whose IsOn() is already false: nothing the library calls running
 		res.Outcome = "not-applicable:IsOn() false before the stop request"
 		return
@@ -773,14 +849,16 @@ func runCell(c Cell) (res Result) {
 	switch c.Stop {
 	case "ctx-cancel", "deadline":
 		requestCtxEnd()
+		release()
 	case "Cancel":
 		sub.Cancel()
+		release()
 	case "Stop":
 		stopIssued = true
-		go func() { err := sub.Stop(); stopCh <- callResult{err, time.Now()} }()
+		go func() { err := sub.Stop(); release(); stopCh <- callResult{err, time.Now()} }()
 	case "Restart":
 		stopIssued = true
-		go func() { err := sub.Restart(); stopCh <- callResult{err, time.Now()} }()
+		go func() { err := sub.Restart(); release(); stopCh <- callResult{err, time.Now()} }()
 	}
 	deadline := t0.Add(bound)
 	ms := func(t time.Time) string { return fmt.Sprintf("%d ms", t.Sub(t0).Milliseconds()) }
@@ -798,11 +876,24 @@ func runCell(c Cell) (res Result) {
 		}
 	}
 	if stopIssued {
-		select {
+		var got *callResult
+		select { // a call that has already returned is seen even when the bound was used up waiting for Execute
 		case r := <-stopCh:
+			got = &r
+		default:
+			select {
+			case r := <-stopCh:
+				got = &r
+			case <-time.After(time.Until(deadline)):
+			}
+		}
+		if got != nil && !got.at.After(deadline) {
 			stopIssued = false
-			res.StopReturned = fmt.Sprintf("%s: %v", ms(r.at), r.err)
-		case <-time.After(time.Until(deadline)):
+			res.StopReturned = fmt.Sprintf("%s: %v", ms(got.at), got.err)
+		} else {
+			if got != nil {
+				stopIssued = false
+			}
 			res.StopReturned = "not within bound"
 			res.Failed = append(res.Failed, strings.ToLower(c.Stop)+"-return")
 		}
@@ -867,6 +958,9 @@ func signature(r Result) string {
 	if r.Cell.Reuse != "" {
 		as += "|reuse=" + r.Cell.Reuse
 	}
+	if r.Cell.Sched != "" {
+		as += "|sched=" + r.Cell.Sched
+	}
 	return fmt.Sprintf("shape=%s|start=%s|stop=%s|instant=%s%s|failed=%s", r.Cell.Shape, r.Cell.Start, r.Cell.Stop, r.Class, as, strings.Join(r.Failed, "+"))
 }
 
@@ -921,6 +1015,15 @@ func TestC05(t *testing.T) {
 		}
 	} else {
 		cells = grid(ev.Thorough())
+		if f := os.Getenv("VERIF_C05_FILTER"); f != "" { // debugging aid: only the cells whose name contains f
+			var keep []Cell
+			for _, c := range cells {
+				if strings.Contains(c.String(), f) {
+					keep = append(keep, c)
+				}
+			}
+			cells = keep
+		}
 	}
 
 	workers := 2 * runtime.NumCPU()
@@ -942,11 +1045,21 @@ func TestC05(t *testing.T) {
 				if i >= len(cells) {
 					return
 				}
-				results[i] = runCell(cells[i])
+				if cells[i].Sched == "" {
+					results[i] = runCell(cells[i])
+				}
 			}
 		}()
 	}
 	wg.Wait()
+	// the cells that hold goroutines of the library back share one hook: one at a time, nothing else running
+	lateCells := 0
+	for i := range cells {
+		if cells[i].Sched != "" {
+			results[i] = runCell(cells[i])
+			lateCells++
+		}
+	}
 
 	outcomes := map[string]int{}
 	perStartStop := map[string]map[string]int{}
@@ -1010,6 +1123,8 @@ func TestC05(t *testing.T) {
 		"parallel_cells":            workers,
 		"kernel_scheduling_in_cell": "not controlled",
 	}
+	rep.Coverage["cells_with_the_monitoring_goroutine_held_back"] = lateCells
+	rep.Coverage["monitoring_goroutines_held_back"] = heldN.Load()
 	rep.Coverage["distinct_outcomes"] = len(outcomes)
 	rep.Coverage["outcomes"] = outcomes
 	rep.Coverage["verdicts_by_start_x_stop"] = perStartStop
